@@ -15,6 +15,7 @@ TW = 'beartype/_data/check/code/func/datacodefuncwrap.py'
 VOP = 'beartype/vale/_is/_valeisoper.py'
 DM = 'beartype/door/_cls/doormeta.py'
 CCH = 'beartype/_util/cache/utilcachecall.py'
+C3119 = 'beartype/_util/cls/pep/clspep3119.py'
 FLOOR_APPLIED = 10
 
 
@@ -56,6 +57,11 @@ VARIANTS = {
     # ---- family layering ---------------------------------------------------------------------------------------
     'conf-raises-decor-family': tseeded(CT, _first_raise('die_if_conf_kwargs_invalid', "BeartypeDecorHintPepException('bad option')"), 'C11.R1',
                                         'a configuration error is reported as a decoration-time hint error'),
+    # ---- R11: probes of the user's metaclass hooks ---------------------------------------------------------------
+    'probe-raiser-catches-typeerror-only': tseeded(C3119, lambda t: replace_where(
+        t, lambda n: isinstance(n, ast.ExceptHandler) and n.type is not None and ast.unparse(n.type) == 'Exception',
+        lambda n: (setattr(n, 'type', expr('TypeError')) or n), scope='_die_unless_object_builtin_checkable'), 'C11.R11',
+        'a metaclass __instancecheck__ raising ValueError lets a bare ValueError out of @beartype (seeded C11-11)'),
     # ---- neutral ---------------------------------------------------------------------------------------------------
     'n-roundtrip-conftest': roundtrip(CT),
     'n-roundtrip-checkmake': roundtrip(CMK),
